@@ -198,8 +198,11 @@ pub fn run(tier: &str, seed: u64) -> Sink {
                             let b = body.as_bytes();
                             (0..b.len()).any(|i| b[i] == b'\r' && b.get(i + 1) != Some(&b'\n'))
                         };
-                        if !lone_cr && long_value(body) != long_value(&strs[0].1) {
-                            sink.v("C04", "long-value-changed", json!({"input": prog, "config": cfg_to_string(&c), "output": out}));
+                        if long_value(body) != long_value(&strs[0].1) {
+                            // C04_long covers bodies without a lone CR; with one (`\n\r` is a single line break for a Lua
+                            // reader) the conversion to CRLF adds a line break: C04_long_lone_cr_witness, a known finding
+                            let sig = if lone_cr { "long-value-changed:lone-cr" } else { "long-value-changed" };
+                            sink.v("C04", sig, json!({"input": prog, "config": cfg_to_string(&c), "output": out}));
                         }
                     }
                 }
